@@ -55,3 +55,57 @@ Proof. vm_compute. repeat split; reflexivity. Qed.
 (* the monitor accepts the model's own trace of the scenario *)
 Example scenario_trace_ok : trace_ok (model_trace init (ev_scenario ++ ev_tail)) = true.
 Proof. vm_compute. reflexivity. Qed.
+
+(* ---- the lease rule of the monitor (Spec.lease_step) --------------------------- *)
+(* a client that after OPEN + OPEN_CONFIRM is heard of only through READ /
+   WRITE / SETATTR with its open state ID, 60 % of a lease period apart, one
+   READ staying parked in the leaf while the clock passes the lease *)
+Definition ev_lease_io : list event :=
+  [ EReq 1 1000 FhNone (RSetClientId 1 1);
+    EReq 2 1000 FhNone (RSetClientIdConfirm 1000 1001);
+    EReq 3 1000 FhRoot (ROpen (mkOpenArgs 1000 0 1 3 0 HowUnchecked (ClNull (NmOk 0))));
+    EOpenRet 3 1000 (OrOk 1);
+    EReq 4 1000 (FhFile 1 true) (ROpenConfirm (sidr 1 1002) 2);
+    EReq 5 1060 (FhFile 1 true) (RIo IoRead (sidr 2 1002) 0 0);  EIoRet 5 1060 0;
+    EReq 6 1120 (FhFile 1 true) (RIo IoWrite (sidr 2 1002) 0 0); EIoRet 6 1120 0;
+    EReq 7 1180 (FhFile 1 true) (RIo IoSetattr (sidr 2 1002) 0 0); EIoRet 7 1180 0 ].
+Definition ev_lease_parked : list event :=
+  [ EReq 8 1240 (FhFile 1 true) (RIo IoRead (sidr 2 1002) 0 0) ].
+Definition ev_lease_tail : list event :=
+  [ EReq 9 1300 FhNone (RRenew 0);
+    EReq 10 1360 FhNone (RRenew 0);
+    EIoRet 8 1360 0;
+    EReq 11 1420 (FhFile 1 true) (RIo IoRead (sidr 2 1002) 0 0); EIoRet 11 1420 0 ].
+Definition ev_lease_all := ev_lease_io ++ ev_lease_parked ++ ev_lease_tail.
+
+(* the client is still registered, its file open and its state ID honoured 4.2
+   lease periods after the last request that was not I/O; the lease rule and
+   the whole monitor accept the model's trace; once the client falls silent
+   for a lease period everything goes *)
+Example lease_io_keeps_client :
+  map cf_short (st_confs (state_after ev_lease_all)) = [1000]
+  /\ map o_reply (snd (run (state_after ev_lease_all) [EReq 12 1500 (FhFile 1 true) (RIo IoRead (sidr 2 1002) 0 0)])) = [RpParkedIo]
+  /\ lease_trace_ok (model_trace init (ev_lease_all ++ [EReq 12 1600 FhNone (RRenew 0)])) = true
+  /\ trace_ok (model_trace init (ev_lease_all ++ [EReq 12 1600 FhNone (RRenew 0)])) = true
+  /\ dump_is_empty (dump_of (state_after (ev_lease_all ++ [EReq 12 1600 FhNone (RRenew 0)]))) = true.
+Proof. vm_compute. repeat split; reflexivity. Qed.
+
+(* what the rule rejects: the same client expired by the next READ although it
+   used its state ID 60 time units (lease = 100) earlier; and expired by a
+   RENEW of somebody else while its READ is parked in the leaf *)
+Example lease_rule_rejects_early_expiry :
+  lease_run lmon_init (empty_dump 0)
+    (model_trace init ev_lease_io
+     ++ [mkObs (EReq 8 1240 (FhFile 1 true) (RIo IoRead (sidr 2 1002) 0 0)) (RpOp (ResStatus ERR_BAD_STATEID)) 0
+               [mkCall 1 false (mkMask true true)] (empty_dump 1240)])
+  = "C18:client-expired-within-lease"%string
+  /\ lease_run lmon_init (empty_dump 0)
+    (model_trace init (ev_lease_io ++ ev_lease_parked)
+     ++ [mkObs (EReq 9 1300 FhNone (RRenew 0)) (RpOp (ResStatus ERR_STALE_CLIENTID)) 0 [] (empty_dump 1300)])
+  = "C18:client-expired-during-io"%string
+  /\ mon_run mon_init
+    (model_trace init ev_lease_io
+     ++ [mkObs (EReq 8 1240 (FhFile 1 true) (RIo IoRead (sidr 2 1002) 0 0)) (RpOp (ResStatus ERR_BAD_STATEID)) 0
+               [mkCall 1 false (mkMask true true)] (empty_dump 1240)])
+  = "C18:client-expired-within-lease"%string.
+Proof. vm_compute. repeat split; reflexivity. Qed.
